@@ -93,4 +93,51 @@ def jobs(tier, seed):
             continue
         for cfg in cls.QUICK + (cls.THOROUGH if tier == "thorough" else []):
             js.append((cfg, "checks.C04", "run", {"cfg": cfg}))
+    js.append(("PacMan@default/mask-vs-movement", "checks.C04", "run_pacman_default_mask", {}))
     return js
+
+
+def run_pacman_default_mask(R):
+    """PacMan on the DEFAULT maze (31x28, with the tunnel row): for every corridor cell the player can stand on and every move, the
+    mask entry agrees with the environment's own reaction (form (b) of C04): masked-in <=> `step`'s movement code
+    (check_wall_collisions(player_step(...))) actually moves the player.  The harness mazes have closed borders, so the wrap-around
+    through the tunnel mouths - where mask (JAX index wrap/clamp) and movement (modulo) are two different pieces of arithmetic - is
+    only exercised here.  Player position symbolic over the whole grid, everything else from the real reset(PRNGKey(0))."""
+    import jax
+    import jax.numpy as jnp
+    from engine.jx2smt import SV, Ctx
+    from engine.vexpr import pick
+    from jumanji import environments as E
+    from jumanji.environments.routing.pac_man.types import Position
+    env = E.PacMan()
+    s0, _ = jax.jit(env.reset)(jax.random.PRNGKey(0))
+    s_np = jax.tree_util.tree_map(np.asarray, s0)
+    xs, ys = int(env.x_size), int(env.y_size)
+    ctx = Ctx()
+    px = ctx.fresh_arr("P.x", (), np.int32, 0, xs - 1)
+    py = ctx.fresh_arr("P.y", (), np.int32, 0, ys - 1)
+    st = S.conc_tree(s_np).replace(player_locations=Position(x=px, y=py))
+    grid = vs(S.conc_tree(s_np).grid)
+    # the player stands on a corridor cell (the mask function reads grid[x][y] with x = player.x, y = player.y)
+    on_corridor = pick(grid, vs(px), vs(py), default=X.const(0)) == 1 if np.asarray(s_np.grid).shape == (xs, ys) else pick(grid, vs(py), vs(px), default=X.const(0)) == 1
+    mask = S.call(ctx, env._compute_action_mask, st, R=R, name="PacMan._compute_action_mask (default maze)")
+    R.nvars += 2
+    A = list(ctx.assumptions) + [on_corridor.z()]
+    R.bound(maze="default 31x28 (tunnel row included)", player="any corridor cell", moves="0..3", other_state="reset(PRNGKey(0))")
+    R.reach("player on a corridor cell", A)
+    m = vs(mask)
+    for a in range(4):
+        act = SV(np.asarray(a, np.int32), np.int32)
+        new = S.call(ctx, lambda s_, a_: env.check_wall_collisions(s_, env.player_step(s_, a_)), st, act, R=R, name="PacMan.check_wall_collisions(player_step)")
+        moved = ~((vs(new.x) == vs(px)) & (vs(new.y) == vs(py)))
+        mk = m[a] if m[a].dt == np.bool_ else (m[a] != 0)
+
+        def rp(model, a=a):
+            x0, y0 = int(S.model_sv(model, px)), int(S.model_sv(model, py))
+            s_ = s0.replace(player_locations=Position(x=jnp.asarray(x0, jnp.int32), y=jnp.asarray(y0, jnp.int32)))
+            mreal = bool(np.asarray(env._compute_action_mask(s_))[a])
+            n_ = env.check_wall_collisions(s_, env.player_step(s_, a))
+            mv = (int(n_.x), int(n_.y)) != (x0, y0)
+            return (mreal != mv), {"player": [x0, y0], "action": a, "mask": mreal, "step_moves_the_player": mv, "new_position": [int(n_.x), int(n_.y)]}
+        R.prove(f"default maze, action {a}: masked in <=> the movement code of step moves the player (tunnel mouths included)", A, mk.iff(moved).term(), replay=rp)
+    R.sample({"env": "PacMan default", "cells": xs * ys})
